@@ -13,6 +13,7 @@
 -/
 import DateutilVerif.Base.Wire
 import DateutilVerif.Model.Parser
+import DateutilVerif.Spec.ParserTemplates
 
 namespace Ops.Parser
 open Wire PM
@@ -164,6 +165,10 @@ def handle (op : String) (args : List String) : Option String :=
       | some tzn, some tzi, some n, some o =>
         Py.showR showDescr (buildTzaware tzn tzi { tzname := n, tzoffset := o })
       | _, _, _, _ => "bad-args")
+  | "parser.render", [sep, dt] =>
+    some (match sep.toNat?, (parseIntList? dt).bind DT.ofList? with
+      | some c, some t => "ok " ++ showCps (PT.renderIso (Char.ofNat c) t)
+      | _, _ => "bad-args")
   | "parser.dec", [cps, classes] =>
     -- the Decimal kernel: int(v), v % 1 truthiness, int(60 * (v % 1))
     some (match parseCps? cps with
